@@ -22,7 +22,20 @@ class Unsupported(Exception):
 # --------------------------------------------------------------------------- AST loading
 
 def ast_dump(src, filt, workdir, extra_args=()):
-    """Run clang on the real TU and return the list of top-level JSON documents."""
+    """Run clang on the real TU and return the list of top-level JSON documents.
+    `filt` may be a list of filters: they are dumped in parallel and the documents merged."""
+    if isinstance(filt, (list, tuple)):
+        from concurrent.futures import ThreadPoolExecutor
+        with ThreadPoolExecutor(max_workers=8) as ex:
+            parts = list(ex.map(lambda f: ast_dump(src, f, workdir, extra_args), filt))
+        seen, out = set(), []
+        for p in parts:
+            for d in p:
+                key = (d.get('kind'), d.get('name'), json.dumps(d.get('range', {}).get('begin', {}), sort_keys=True), json.dumps(d.get('loc', {}), sort_keys=True))
+                if key not in seen:
+                    seen.add(key)
+                    out.append(d)
+        return out
     os.makedirs(workdir, exist_ok=True)
     tag = hashlib.sha1((src + '|' + filt + '|' + ' '.join(extra_args)).encode()).hexdigest()[:12]
     out = os.path.join(workdir, 'ast_%s.json' % tag)
@@ -152,6 +165,7 @@ class Lower:
     SELF_T = ''         # C struct name of `this`
     DBL_BIN = {'+': 'D_ADD', '-': 'D_SUB', '*': 'D_MUL', '/': 'D_DIV', '<': 'D_LT', '>': 'D_GT',
                '<=': 'D_LE', '>=': 'D_GE', '==': 'D_EQ', '!=': 'D_NE'}
+    IS_METHOD = True
     WRAP_DOUBLE_OPS = True    # route double arithmetic through D_* macros (UF-able)
     CHECK_DIV = True          # wrap signed / and % in an explicit no-trap obligation
 
@@ -584,7 +598,20 @@ class Lower:
         return '%s %s' % (ctp, pd['name'])
 
     def ret_ctype(self, d):
-        return self.ctype(d['type']['qualType'].split('(')[0].strip())
+        t = d['type']['qualType']
+        # "RET (PARAMS) quals": find the '(' that matches the last ')'
+        j = t.rfind(')')
+        depth = 0
+        i = j
+        while i >= 0:
+            if t[i] == ')':
+                depth += 1
+            elif t[i] == '(':
+                depth -= 1
+                if depth == 0:
+                    break
+            i -= 1
+        return self.ctype(t[:i].strip())
 
     def func(self, d, cname=None, is_method=True):
         self.fn = d['name'] if cname is None else cname
